@@ -60,7 +60,7 @@ def run_verus(path, rlimit=None, seed=None, threads=None, timeout=900, extra=Non
 def classify(res, linemap, fname):
     """-> dict(failed: {oid: [msgs]}, infra: [msgs], rlimit: [oids], fn_times: {...})"""
     lines = linemap["lines"]
-    failed, infra, rl = {}, [], {}
+    failed, infra, rl, artifact = {}, [], {}, {}
     base = os.path.basename(fname)
     for d in res["diags"]:
         lvl = d.get("level")
@@ -94,6 +94,11 @@ def classify(res, linemap, fname):
             tag = ent.get("tag")
             # precondition failure: primary = call site (body)
             oid = f"{ent['name']}.{ent['fn']}.{tag or 'body'}"
+            # a failure located in UNTAGGED injected proof text (hint assert, lemma call, plumbing invariant) is a proof
+            # artifact: it says the proof as written no longer goes through, not which program obligation is violated
+            if ent.get("injected") and not tag and is_vf:
+                artifact.setdefault(f"{ent['name']}.{ent['fn']}", []).append(rendered)
+                continue
         else:
             if ent.get("fn") is None:
                 infra.append(f"{msg} @ spec line {ln}")
@@ -111,13 +116,13 @@ def classify(res, linemap, fname):
         m = re.search(r"panicked at [^\n]*\n[^\n]*", res["raw_err"])
         infra.append("verus crashed (unsupported construct): " + (m.group(0).replace("\n", " ") if m else "panic"))
     vr = (res["json"] or {}).get("verification-results", {})
-    if res["json"] is not None and not vr.get("success", False) and not failed and not infra and not rl:
+    if res["json"] is not None and not vr.get("success", False) and not failed and not infra and not rl and not artifact:
         infra.append("verus reported failure without a classifiable diagnostic: " + res["raw_err"][-300:].replace("\n", " "))
     if res["json"] is not None and vr.get("success", False) and vr.get("verified", 0) == 0:
         infra.append("verus verified 0 functions")
     if res["json"] is None and not failed and not infra:
         infra.append("verus produced no JSON result: " + res["raw_err"][-400:])
-    return {"failed": failed, "infra": infra, "rlimit": rl}
+    return {"failed": failed, "infra": infra, "rlimit": rl, "artifact": artifact}
 
 
 def fn_times(res):
